@@ -21,6 +21,7 @@ import numpy as np
 from hypothesis import strategies as st
 
 from .. import lib, strategies as S
+from .. import lib as _lib  # noqa: F401
 from ..lib import FAILED
 from ..runner import Sub
 
@@ -372,6 +373,85 @@ class Rec2:
     pass
 
 
+# ---- "fresh interpreter state" oracle -------------------------------------------------------------
+# The first time a worker evaluates a dynamic case it forks a *template* process that has made no
+# library call yet.  For every request the template forks a grandchild, which evaluates exactly one
+# call in that pristine state and sends the pickled result back.  Comparing the worker's own result
+# (obtained after thousands of earlier calls on other inputs) with the pristine one exposes state
+# that leaks between calls: module-level caches, mutable default arguments, shared scratch buffers.
+_fresh = {'pid': None}
+
+
+def _send(fd, obj):
+    import pickle
+    import struct
+    data = pickle.dumps(obj)
+    os.write(fd, struct.pack('<Q', len(data)))
+    view = memoryview(data)
+    while view:
+        k = os.write(fd, view[:65536])
+        view = view[k:]
+
+
+def _recv(fd):
+    import pickle
+    import struct
+    head = b''
+    while len(head) < 8:
+        chunk = os.read(fd, 8 - len(head))
+        if not chunk:
+            return None
+        head += chunk
+    n = struct.unpack('<Q', head)[0]
+    buf = bytearray()
+    while len(buf) < n:
+        chunk = os.read(fd, min(65536, n - len(buf)))
+        if not chunk:
+            return None
+        buf += chunk
+    return pickle.loads(bytes(buf))
+
+
+def _fresh_start():
+    req_r, req_w = os.pipe()
+    res_r, res_w = os.pipe()
+    pid = os.fork()
+    if pid == 0:                       # template: never calls the library itself
+        os.close(req_w)
+        os.close(res_r)
+        try:
+            while True:
+                msg = _recv(req_r)
+                if msg is None:
+                    break
+                child = os.fork()
+                if child == 0:
+                    try:
+                        fn, case = msg
+                        r = lib.Rec()
+                        out, _, _, _ = _invoke(r, fn, public_functions()[fn], case, 'C')
+                        _send(res_w, ('failed', [l for l, _ in r.violations]) if out is FAILED else ('ok', out))
+                    except BaseException as e:   # noqa
+                        try:
+                            _send(res_w, ('error', repr(e)))
+                        except Exception:
+                            pass
+                    os._exit(0)
+                os.waitpid(child, 0)
+        finally:
+            os._exit(0)
+    os.close(req_r)
+    os.close(res_w)
+    _fresh.update(pid=pid, req=req_w, res=res_r, owner=os.getpid())
+
+
+def fresh_result(fn, case):
+    if _fresh['pid'] is None or _fresh.get('owner') != os.getpid():
+        _fresh_start()
+    _send(_fresh['req'], (fn, case))
+    return _recv(_fresh['res'])
+
+
 def oracle_dyn(case, rec):
     fn = case['function']
     funcs = public_functions()
@@ -380,6 +460,8 @@ def oracle_dyn(case, rec):
         rec.tag('missing-function:' + fn)   # an API was removed/renamed: not this property's claim
         return
     f = funcs[fn]
+    if _fresh['pid'] is None or _fresh.get('owner') != os.getpid():
+        _fresh_start()             # before this worker's first library call of the sub-check
     n0 = len(rec.violations)
     out, before, after, args = _invoke(rec, fn, f, case, 'C')
     failed_base = out is FAILED
@@ -416,6 +498,17 @@ def oracle_dyn(case, rec):
         d = same(out, snap1, exact=True)
         if d:
             rec.fail('aliasing:%s' % fn, 'the result of the first call changed after a later, unrelated call: ' + d)
+    # the same call in a process that has made no other library call
+    fr = fresh_result(fn, case)
+    if fr is None or fr[0] == 'error':
+        rec.tag('fresh-state-oracle:unavailable')
+    elif (fr[0] == 'failed') != failed_base:
+        rec.fail('history-dependent:%s' % fn, 'raises in one of {fresh process, long-running process} only')
+    elif not failed_base:
+        d = same(out, fr[1], exact=True)
+        if d:
+            rec.fail('history-dependent:%s' % fn, 'result differs from the same call made in a fresh process state: ' + d)
+        rec.tag('fresh-state-oracle:compared')
     # determinism
     n1 = len(rec.violations)
     out2, _, _, _ = _invoke(rec, fn, f, case, 'C')
